@@ -739,4 +739,26 @@ theorem parse_strItems (T : Table) (hT : T.wf = true) (s : Items Q) (hs : okItem
     rw [hC]
     simp [pDensity, skipWs]
 
+/-! ## where `norm` is the identity -/
+
+mutual
+def noUnitFrag : Frag Cnt → Bool
+  | .atom _ => true
+  | .group g => noUnit g
+/-- no group has a count equal to 1 -/
+def noUnit : Items Cnt → Bool
+  | .nil => true
+  | .cons c (.atom _) r => noUnit r
+  | .cons c (.group g) r => !c.isOne && noUnit g && noUnit r
+end
+
+theorem norm_id : (s : Items Cnt) → noUnit s = true → norm s = s
+  | .nil, _ => by simp [norm]
+  | .cons c (.atom x) r, h => by
+    simp only [noUnit] at h
+    simp [norm, normFrag, norm_id r h]
+  | .cons c (.group g) r, h => by
+    simp only [noUnit, Bool.and_eq_true, Bool.not_eq_true'] at h
+    simp [norm, normFrag, h.1.1, norm_id g h.1.2, norm_id r h.2]
+
 end PtModel.Grammar
